@@ -1277,6 +1277,7 @@ func (w *World) RunBMC(id string, bs BMCSpec, tier string, kfs map[string]KnownF
 		}
 	}
 	var stateVars []string
+	var nondetVars []*Term
 	for k := 0; k <= sys.K; k++ {
 		for t := 0; t < sys.nthreads; t++ {
 			stateVars = append(stateVars, smtName(fmt.Sprintf("pc%d!%d", t, k)))
@@ -1286,6 +1287,27 @@ func (w *World) RunBMC(id string, bs BMCSpec, tier string, kfs map[string]KnownF
 		}
 		if k < sys.K {
 			stateVars = append(stateVars, smtName(fmt.Sprintf("sched!%d", k)))
+		}
+	}
+	{
+		seen := map[string]bool{}
+		visited := map[*TNode]bool{}
+		var walk func(n *TNode)
+		walk = func(n *TNode) {
+			if visited[n] {
+				return
+			}
+			visited[n] = true
+			if n.ev != nil && n.ev.Kind == "nondet" && !seen[n.ev.Var.Name] {
+				seen[n.ev.Var.Name] = true
+				nondetVars = append(nondetVars, n.ev.Var)
+			}
+			for _, e := range n.edges {
+				walk(e.to)
+			}
+		}
+		for _, tt := range sys.trees {
+			walk(tt.root)
 		}
 	}
 	type oblRes struct {
@@ -1321,10 +1343,19 @@ func (w *World) RunBMC(id string, bs BMCSpec, tier string, kfs map[string]KnownF
 			defer func() { <-sem }()
 			c := p.Child()
 			c.Assert(ob.term)
+			var ndNames []string
+			for _, v := range nondetVars {
+				// make sure the variable is declared even if no constraint mentions it
+				c.Assert(sys.tb.Mention(v))
+				ndNames = append(ndNames, smtName(v.Name))
+			}
+			for _, v := range setupVars(bmcSetupPC) {
+				ndNames = append(ndNames, smtName(v.Name))
+			}
 			text := baseText + c.String() + "(check-sat)\n"
-			if ob.expect == "unsat" {
+			{
 				// values of the state variables only (get-model would print every definition)
-				text += "(get-value (" + strings.Join(stateVars, " ") + "))\n"
+				text += "(get-value (" + strings.Join(append(append([]string{}, stateVars...), ndNames...), " ") + "))\n"
 			}
 			r := RunOneShot(bmcSolverKind(), text, timeout, scratch)
 			or := oblRes{ob: ob, res: r.Res, dur: r.Dur, out: r.Out}
@@ -1337,6 +1368,7 @@ func (w *World) RunBMC(id string, bs BMCSpec, tier string, kfs map[string]KnownF
 	}
 	wg.Wait()
 	var oblSummary []map[string]interface{}
+	witnessReplays := 0
 	for _, r := range results {
 		bmcStats.NQ++
 		bmcStats.Dur += r.dur
@@ -1360,6 +1392,24 @@ func (w *World) RunBMC(id string, bs BMCSpec, tier string, kfs map[string]KnownF
 			if r.res == "sat" && len(br.Samples) < 3 {
 				br.Samples = append(br.Samples, map[string]interface{}{"witness_for": r.ob.name, "schedule": sys.traceOf(r.model)})
 			}
+			// translator validation: the witness schedule is forced on the real code and must reach the
+			// same marker without blocking (one witness per system in the quick tier, all in thorough)
+			if r.res == "sat" && r.ob.kind == "reach" && os.Getenv("SYMGO_NO_BMC_REPLAY") == "" && (tier == "thorough" || witnessReplays == 0) {
+				witnessReplays++
+				dir := filepath.Join(verifDir(), "replays", id, sanitize(bs.Name+"-witness-"+r.ob.name))
+				os.RemoveAll(dir)
+				os.MkdirAll(dir, 0o755)
+				os.WriteFile(filepath.Join(dir, "trace.txt"), []byte(strings.Join(sys.traceOf(r.model), "\n")+"\n"), 0o644)
+				_, out := w.ReplayBMC(id, bs, sys, r.ob, r.model, dir)
+				marker := strings.TrimPrefix(r.ob.name, "reach:")
+				good := strings.Contains(out, "REPLAY-REACH "+marker) && !strings.Contains(out, "no-deadlock") && !strings.Contains(out, "REPLAY-NOTE") && !strings.Contains(out, "DATA RACE")
+				entry["witness_replayed_natively"] = good
+				if good {
+					br.Replayed++
+				} else {
+					br.Inconclusive = append(br.Inconclusive, fmt.Sprintf("%s: the witness schedule for %q could not be followed by the real code (encoder fault or replay shim limitation) replay=%s", bs.Name, r.ob.name, dir))
+				}
+			}
 		case r.ob.expect == "sat":
 			br.Inconclusive = append(br.Inconclusive, fmt.Sprintf("%s: vacuous: witness %q is unreachable", bs.Name, r.ob.name))
 		case r.ob.kind == "unwind":
@@ -1373,7 +1423,18 @@ func (w *World) RunBMC(id string, bs BMCSpec, tier string, kfs map[string]KnownF
 			os.WriteFile(filepath.Join(dir, "trace.txt"), []byte(strings.Join(trace, "\n")+"\n"), 0o644)
 			what := fmt.Sprintf("%s: %s violated (%s); schedule: %s", bs.Name, r.ob.name, r.ob.detail, strings.Join(trace, " | "))
 			entry["counterexample"] = trace
-			br.Violations = append(br.Violations, BMCViolation{Replay: dir, What: what})
+			if os.Getenv("SYMGO_NO_BMC_REPLAY") == "" {
+				ok, _ := w.ReplayBMC(id, bs, sys, r.ob, r.model, dir)
+				entry["reproduced_natively"] = ok
+				if ok {
+					br.Replayed++
+					br.Violations = append(br.Violations, BMCViolation{Replay: dir, What: what + " [reproduced natively under the forced schedule]"})
+				} else {
+					br.Inconclusive = append(br.Inconclusive, fmt.Sprintf("%s: obligation %q is satisfiable but the schedule did not reproduce natively (encoder/stub fault, or a schedule the native shim cannot force) replay=%s", bs.Name, r.ob.name, dir))
+				}
+			} else {
+				br.Violations = append(br.Violations, BMCViolation{Replay: dir, What: what})
+			}
 		}
 		oblSummary = append(oblSummary, entry)
 	}
@@ -1485,4 +1546,27 @@ func bmcSolverKind() string {
 		return k
 	}
 	return "z3-new"
+}
+
+// setupVars: the free variables of the setup-phase path condition (configuration inputs of the harness).
+func setupVars(pc []*Term) []*Term {
+	seen := map[int]bool{}
+	var out []*Term
+	var walk func(t *Term)
+	walk = func(t *Term) {
+		if seen[t.ID] {
+			return
+		}
+		seen[t.ID] = true
+		if t.Op == OpVar {
+			out = append(out, t)
+		}
+		for _, a := range t.Args {
+			walk(a)
+		}
+	}
+	for _, t := range pc {
+		walk(t)
+	}
+	return out
 }
